@@ -89,6 +89,14 @@ def gen_case(rng):
             b = ('l', [member(rng, 1), member(rng, 1)])
         base.append((S('t'), a))
         layers.append(('m', [(S('t'), b)]))
+        if rng.random() < 0.5:
+            # a null layer resets the parameter; a further layer defines it anew.  Members are also
+            # embedded on their own (${t:k2}): their text is the text of the member of the final value
+            layers.append(('m', [(S('t'), N)]))
+            c = ('m', [(S('k2'), member(rng, 1)), (S('k3'), member(rng, 1))]) if a[0] == 'm' else ('l', [member(rng, 1)])
+            layers.append(('m', [(S('t'), c)]))
+        if a[0] == 'm':
+            base.append((S('sm'), S('<%s|%s>' % ('${t:k2}', '${t:k3}'))))
     # literal pieces as (written, rendered): dollars and backslashes that are not markers stay as
     # they are, an escaped marker loses its backslash
     pre_w, pre = rng.choice([('', ''), ('x', 'x'), ('pre ', 'pre '), ('é=', 'é='), ('"', '"'), ('{', '{'),
